@@ -11,7 +11,7 @@ class FakeTaskMan:
     """AsyncTasks-compatible object; tasks are created on the running loop"""
 
     unique_id = "SPA010203040506"
-    spa_name = "Spa"
+    spa_name = "My Tub"
 
     def __init__(self):
         self._tasks = []
